@@ -128,8 +128,8 @@ CHECKS = {
          "(cur <= end <= capacity, buffer bytes = stream bytes at the logical offset, nothing touched outside the allocation) holds initially and is kept by every operation used within its contract and by any legal sequence "
          "(C07_inv_init, C07_inv, C07_inv_reach); require either reports overflow exactly when cur + amount exceeds the capacity or leaves min(amount, remaining) bytes available with cursor, position and old bytes unchanged, for every schedule "
          "(C07_require); size/empty/peek/bump agree with the memory-input model at the same logical position (C07_window_eq, C07_bump_eq); discard keeps view and position and moves data exactly when cur > Chunk (C07_discard); saved iterators stay valid "
-         "across require and are invalidated by a moving discard (C07_rewind, C07_discard_invalidates); every atom over the buffer (contrib rep_one_min_max included; utf8::range and maximum_rule excluded) either overflows or behaves as on memory (C07_run_sim_partial)."),
-   note=GENERAL_NOTE + " Partial: the lift of the simulation through the combinator bodies is explored by the whole-run differential (memory_input vs buffer_input with ~7 capacity/Chunk/schedule triples per case, plus file/mmap/stream/argv inputs), not proved; fread/mmap/ifstream are not modelled; utf8::range and maximum_rule are not transcribed over the buffer; pointer sums are in Nat (no wrap-around).",
+         "across require and are invalidated by a moving discard (C07_rewind, C07_discard_invalidates); every atom over the buffer (contrib rep_one_min_max and utf8::range / not_range through peek_utf8 included; maximum_rule excluded) either overflows or behaves as on memory (C07_run_sim_partial)."),
+   note=GENERAL_NOTE + " Partial: the lift of the simulation through the combinator bodies is explored by the whole-run differential (memory_input vs buffer_input with ~7 capacity/Chunk/schedule triples per case, plus file/mmap/stream/argv inputs), not proved; fread/mmap/ifstream are not modelled; maximum_rule is not transcribed over the buffer; pointer sums are in Nat (no wrap-around).",
    technique="Lean 4 invariant + refinement proof about an executable model of buffer_input; exhaustive short-read-schedule differential against the real class under ASan; whole-run differential across all input classes; independent Python oracle"),
  'C14': dict(engine='translators', design_ref='DESIGN.md §6 C14',
    text=("Proof (Lean 4): for the node table translated from contrib/json.hpp on every run (Gen = Expected obligation), seq< json::text, eof > succeeds in the PEG formalism iff the input is a JSON text of RFC 8259 "
